@@ -21,6 +21,8 @@ import (
 	"testing"
 	"time"
 
+	"github.com/gdamore/tcell/v2"
+
 	"verifharness/internal/pbt"
 )
 
@@ -76,9 +78,16 @@ func TestProp(t *testing.T) {
 			pbt.Inconclusive("keys: " + err.Error())
 			return
 		}
-		defer closeScreen(s)
+		defer func() { closeScreen(s) }()
+		evalKey := func(c KeyCase) error {
+			err := guardedErr(fullGuard, func() string { return fmt.Sprintf("key case %+v", c) }, func() error { return keyProp(s, c) })
+			if _, wedged := err.(*wedgeErr); wedged {
+				s, _ = newLiveScreen() // never touch a wedged screen again
+			}
+			return err
+		}
 		if replaying {
-			sw.Case(true, 1, func() any { return rc }, keyProp(s, rc), knownKey(rc))
+			sw.Case(true, 1, func() any { return rc }, evalKey(rc), knownKey(rc))
 			return
 		}
 		item := 0
@@ -91,7 +100,7 @@ func TestProp(t *testing.T) {
 				c := KeyCase{Name: name, Shift: m&1 != 0, Alt: m&2 != 0, Ctrl: m&4 != 0, Meta: m&8 != 0}
 				class := keyClass(name)
 				pbt.Class("keys:" + class)
-				err := pbt.Safe(func() error { return keyProp(s, c) })
+				err := evalKey(c)
 				sw.Case(class == "dom" || class == "char", pbt.HashStr("key", name, string(rune('a'+m))), func() any { return c }, err, knownKey(c))
 			}
 		}
@@ -104,13 +113,15 @@ func TestProp(t *testing.T) {
 		sw := pbt.NewSweep(t, "mouse")
 		var rc MouseCase
 		if pbt.ReplayCase("mouse", &rc) {
-			s, err := prepMouse(rc.Flags, rc.How)
-			if err != nil {
-				pbt.Inconclusive("mouse: " + err.Error())
-				return
-			}
-			defer closeScreen(s)
-			sw.Case(true, 1, func() any { return rc }, mouseProp(s, rc), knownMouse(rc))
+			err := guardedErr(fullGuard, func() string { return fmt.Sprintf("mouse case %+v", rc) }, func() error {
+				s, err := prepMouse(rc.Flags, rc.How)
+				if err != nil {
+					return err
+				}
+				defer closeScreen(s)
+				return mouseProp(s, rc)
+			})
+			sw.Case(true, 1, func() any { return rc }, err, knownMouse(rc))
 			return
 		}
 		if sw.Skip() {
@@ -123,10 +134,18 @@ func TestProp(t *testing.T) {
 				if !sw.Mine(item) {
 					continue
 				}
-				s, err := prepMouse(flags, how)
-				if err != nil {
-					pbt.Inconclusive("mouse: " + err.Error())
-					return
+				var s tcell.Screen
+				prep := func() error {
+					return guardedErr(fullGuard, func() string { return fmt.Sprintf("enabling mouse flags %d (%s)", flags, how) }, func() error {
+						var err error
+						s, err = prepMouse(flags, how)
+						return err
+					})
+				}
+				if err := prep(); err != nil {
+					c := MouseCase{Flags: flags, How: how}
+					sw.Case(true, pbt.HashStr("mouse-prep", how, string(rune('a'+flags))), func() any { return c }, err, nil)
+					continue
 				}
 				for _, kind := range []string{"click", "move"} {
 					for which := 0; which <= 3; which++ {
@@ -141,7 +160,12 @@ func TestProp(t *testing.T) {
 								default:
 									pbt.Class("mouse:not-asserted")
 								}
-								err := pbt.Safe(func() error { return mouseProp(s, c) })
+								err := guardedErr(fullGuard, func() string { return fmt.Sprintf("mouse case %+v", c) }, func() error { return mouseProp(s, c) })
+								if _, wedged := err.(*wedgeErr); wedged {
+									if prep() != nil {
+										break
+									}
+								}
 								sw.Case(mouseExpect(c) != 0, pbt.HashStr("mouse", how, kind, string(rune('a'+flags)), string(rune('a'+which)), string(rune('a'+m)), string(rune('a'+pi))), func() any { return c }, err, knownMouse(c))
 							}
 						}
@@ -159,7 +183,7 @@ func TestProp(t *testing.T) {
 		sw := pbt.NewSweep(t, "modes")
 		var rc ModeCase
 		if pbt.ReplayCase("modes", &rc) {
-			sw.Case(true, 1, func() any { return rc }, pbt.Safe(func() error { return modeProp(rc) }), nil)
+			sw.Case(true, 1, func() any { return rc }, guardedErr(fullGuard, func() string { return fmt.Sprintf("mode case %+v", rc) }, func() error { return modeProp(rc) }), nil)
 			return
 		}
 		if sw.Skip() {
@@ -171,7 +195,7 @@ func TestProp(t *testing.T) {
 			}
 			c := c
 			pbt.Class("modes:" + c.Kind)
-			err := pbt.Safe(func() error { return modeProp(c) })
+			err := guardedErr(fullGuard, func() string { return fmt.Sprintf("mode case %+v", c) }, func() error { return modeProp(c) })
 			sw.Case(len(c.Hist) > 0, pbt.HashStr("mode", c.Kind, strings.Join(c.Hist, ","), c.Text, map[bool]string{true: "t", false: "f"}[c.Focused]), func() any { return c }, err, nil)
 		}
 	}()
